@@ -60,7 +60,19 @@ fn text(s: &str) -> Result<String, String> {
 fn ns(s: &str) -> Result<NormalizedString, String> {
     NormalizedString::new(text(s)?).map_err(|_| "badcred".to_string())
 }
+/// an error that came out of the library is also a value the caller will print or convert: Display, Debug and the conversion into
+/// `SrpError` run (under the same catch_unwind as the call) on every error the harness sees
+fn shown<E: std::fmt::Display + std::fmt::Debug>(e: &E) {
+    let a = e.to_string();
+    let b = format!("{:?}", e);
+    std::hint::black_box((a, b));
+}
 fn pkerr(e: &InvalidPublicKeyError) -> &'static str {
+    shown(e);
+    std::hint::black_box(wow_srp::error::SrpError::from(match e {
+        InvalidPublicKeyError::PublicKeyIsZero => InvalidPublicKeyError::PublicKeyIsZero,
+        InvalidPublicKeyError::PublicKeyModLargeSafePrimeIsZero => InvalidPublicKeyError::PublicKeyModLargeSafePrimeIsZero,
+    }).to_string());
     match e {
         InvalidPublicKeyError::PublicKeyIsZero => "zero",
         InvalidPublicKeyError::PublicKeyModLargeSafePrimeIsZero => "modzero",
@@ -588,7 +600,10 @@ fn hdr_op(o: &mut HObj, tok: &str) -> R {
                     *o = HObj::VComb(c);
                     "ok".into()
                 }
-                Err(_) => "err".into(),
+                Err(e) => {
+                    shown(&e);
+                    "err".into()
+                }
             },
             _ => "na".into(),
         },
@@ -689,8 +704,9 @@ fn run_op(a: &[&str]) -> R {
                         format!("ok {}", hex(as_ref.as_bytes()))
                     }
                 }
-                Err(wow_srp::error::NormalizedStringError::StringTooLong) => "err toolong".to_string(),
-                Err(wow_srp::error::NormalizedStringError::CharacterNotAllowed(c)) => {
+                Err(e @ wow_srp::error::NormalizedStringError::StringTooLong) => { shown(e); "err toolong".to_string() }
+                Err(e @ wow_srp::error::NormalizedStringError::CharacterNotAllowed(c)) => {
+                    shown(e);
                     format!("err char {}", *c as u32)
                 }
             };
@@ -829,7 +845,7 @@ fn run_op(a: &[&str]) -> R {
                         hex(&m2),
                         hex(srv.reconnect_challenge_data())
                     ),
-                    Err(e) => format!("err {} {}", hex(&e.client_proof), hex(&e.server_proof)),
+                    Err(e) => { shown(&e); format!("err {} {}", hex(&e.client_proof), hex(&e.server_proof)) }
                 },
             }
         }
@@ -846,7 +862,7 @@ fn run_op(a: &[&str]) -> R {
                 let cc = SrpClientChallenge::new(ns(u)?, ns(p)?, num(g)?, arr(n)?, pb, arr(salt)?);
                 match cc.verify_server_proof(arr(m2)?) {
                     Ok(cl) => format!("ok {}", hex(cl.session_key())),
-                    Err(e) => format!("err {} {}", hex(&e.client_proof), hex(&e.server_proof)),
+                    Err(e) => { shown(&e); format!("err {} {}", hex(&e.client_proof), hex(&e.server_proof)) }
                 }
             }
         },
@@ -970,7 +986,7 @@ fn run_op(a: &[&str]) -> R {
                     let sv = seed.seed();
                     match seed.into_server_header_crypto(&un, arr(k)?, arr(proof)?, num(cs)?) {
                         Ok(c) => format!("ok {} {}", sv, HObj::VComb(c).probe()),
-                        Err(e) => format!("err {} {} {}", hex(&e.client_proof), hex(&e.server_proof), sv),
+                        Err(e) => { shown(&e); format!("err {} {} {}", hex(&e.client_proof), hex(&e.server_proof), sv) }
                     }
                 }
                 "t" => {
@@ -978,7 +994,7 @@ fn run_op(a: &[&str]) -> R {
                     let sv = seed.seed();
                     match seed.into_server_header_crypto(&un, arr(k)?, arr(proof)?, num(cs)?) {
                         Ok(c) => format!("ok {} {}", sv, HObj::TComb(c).probe()),
-                        Err(e) => format!("err {} {} {}", hex(&e.client_proof), hex(&e.server_proof), sv),
+                        Err(e) => { shown(&e); format!("err {} {} {}", hex(&e.client_proof), hex(&e.server_proof), sv) }
                     }
                 }
                 _ => {
@@ -986,7 +1002,7 @@ fn run_op(a: &[&str]) -> R {
                     let sv = seed.seed();
                     match seed.into_server_header_crypto(&un, arr(k)?, arr(proof)?, num(cs)?) {
                         Ok(c) => format!("ok {} {}", sv, HObj::WSrv(c).probe()),
-                        Err(e) => format!("err {} {} {}", hex(&e.client_proof), hex(&e.server_proof), sv),
+                        Err(e) => { shown(&e); format!("err {} {} {}", hex(&e.client_proof), hex(&e.server_proof), sv) }
                     }
                 }
             }
